@@ -515,8 +515,23 @@ impl Simulation {
                 Ok(None) => {
                     #[cfg(feature = "verif-hooks")]
                     crate::verif_hooks::delay(crate::verif_hooks::site::T1);
-                    // Update the simulation time.
-                    self.time.write(target_time);
+                    // Update the simulation time. The scheduler queue must be
+                    // locked while the time is written (see
+                    // `GlobalScheduler::schedule_from`), otherwise an action
+                    // scheduled from another thread could be accepted with a
+                    // deadline that this time jump overtakes. For the same
+                    // reason, an action scheduled at or before the target time
+                    // since the queue was last examined must be processed
+                    // first.
+                    {
+                        let scheduler_queue = self.scheduler_queue.lock().unwrap();
+                        if let Some(((time, _), _)) = scheduler_queue.peek() {
+                            if *time <= target_time {
+                                continue;
+                            }
+                        }
+                        self.time.write(target_time);
+                    }
                     if let SyncStatus::OutOfSync(lag) = self.clock.synchronize(target_time) {
                         if let Some(tolerance) = &self.clock_tolerance {
                             if &lag > tolerance {
